@@ -703,7 +703,16 @@ def wmc_truncating(ctx, prog):      # noqa: F811
 
 wmc_truncating.rule_id = "C11.WMC-truncating"
 
-RULES = [sign_handlers, sign_heaps, wmw_markers, guard_stats, dom_invalidate, dom_bracket, data_swap, heights_edge_ends, wmc_truncating, data_remove_parent]
+def data_cursor(ctx, prog):
+    """The recompute heap's scan cursor never passes pending work (C19.DATA-cursor): a queued needed node that
+    remove_min can no longer see stays needed-and-stale outside the heap's reach."""
+    from .c19 import data_cursor as f
+    f(ctx, prog, "C11.DATA-cursor")
+
+
+data_cursor.rule_id = "C11.DATA-cursor"
+
+RULES = [sign_handlers, sign_heaps, wmw_markers, guard_stats, dom_invalidate, dom_bracket, data_swap, heights_edge_ends, wmc_truncating, data_remove_parent, data_cursor]
 
 # control signature of the bookkeeping effects this property depends on (rules/ctrlsig.py)
 from .ctrlsig import make_rule as _ctrl_rule  # noqa: E402
